@@ -198,6 +198,13 @@ func installIntrinsics(m *Machine) {
 		r.FS.Armed = false
 		return Bool{C: crashed}
 	}
+	I[vp+"Durable"] = func(r *Run, fr *Frame, a []Value) Value {
+		for _, f := range r.FS.Files {
+			f.Durable = len(f.Data)
+		}
+		return nil
+	}
+	I[vp+"CrashKind"] = func(r *Run, fr *Frame, a []Value) Value { return num(r.FS.CrashKind) }
 	I[vp+"Float64"] = func(r *Run, fr *Frame, a []Value) Value {
 		n := r.fresh(r.vname(string(a[0].(Str))), 64, false)
 		return FSym{T: r.TT.mk("(_ to_fp 11 53)", -64, 0, "", n.T)}
@@ -230,4 +237,3 @@ func (r *Run) vname(base string) string {
 	r.vsymN[base] = n + 1
 	return fmt.Sprintf("%s__%d", base, n)
 }
-
